@@ -469,7 +469,17 @@ class PE:
                 return cache[d]
             return Sym(("const", d))
         if isinstance(v, list):
-            return Tup(list(v))        # a constant array of integers, decoded by the exporter
+            def conv(x):
+                if isinstance(x, dict) and "char" in x:
+                    return x["char"]
+                if isinstance(x, dict) and "bytes" in x:
+                    return ("bytes", tuple(x["bytes"]))
+                if isinstance(x, dict) and "str" in x:
+                    return ("str", x["str"])
+                if isinstance(x, list):
+                    return Tup([conv(y) for y in x])
+                return x
+            return Tup([conv(x) for x in v])        # a constant array of integers / characters, decoded by the exporter
         return v
 
     def x_Zst(self, e, env):
@@ -906,6 +916,17 @@ class PE:
             if isinstance(obj, Adt):
                 obj.fields[base["name"]] = v
                 return
+        if base.get("k") == "Index":
+            obj = self.ev(base["lhs"], env)
+            idx = self.ev(base["index"], env)
+            if isinstance(obj, Tup) and isinstance(idx, int) and not isinstance(idx, bool):
+                if 0 <= idx < len(obj.items):
+                    obj.items[idx] = v          # arrays are updated in place (`table[i] = x` while a constant table is built)
+                else:
+                    self.events.append(("panic", "index %d out of bounds (len %d)" % (idx, len(obj.items))))
+                return
+            if isinstance(obj, Tup):
+                raise Undecided("store to element %r of an array" % (idx,))
         self.events.append(("store", pp(l), v))
 
     def x_Closure(self, e, env):
@@ -1046,6 +1067,20 @@ class PE:
                     return a0 if v == "Some" and self.truth(self.apply(args[1], [inner]), e) else NONE
                 if name == "or" and len(args) == 2:
                     return a0 if v in ("Some", "Ok") else args[1]
+                if name == "or_else" and len(args) == 2:
+                    return a0 if v in ("Some", "Ok") else self.apply(args[1], [] if v == "None" else [inner])
+                if name == "and" and len(args) == 2:
+                    return args[1] if v in ("Some", "Ok") else a0
+                if name == "xor" and len(args) == 2 and isinstance(args[1], Adt):
+                    o = args[1]
+                    return a0 if (v == "Some" and o.variant == "None") else o if (v == "None" and o.variant == "Some") else NONE
+                if name in ("unwrap_or_default",) and len(args) == 1 and v in ("Some", "Ok"):
+                    return inner
+                if name == "flatten" and len(args) == 1:
+                    return inner if v in ("Some", "Ok") and isinstance(inner, Adt) else a0
+                if name == "zip" and len(args) == 2 and isinstance(args[1], Adt) and d.startswith("core::option"):
+                    o = args[1]
+                    return some(Tup([inner, o.fields.get("0", UNIT)])) if v == "Some" and o.variant == "Some" else NONE
                 if name == "err":
                     return some(inner) if v == "Err" else NONE
                 if name == "ok":
@@ -1104,7 +1139,16 @@ class PE:
             m_ = _re.fullmatch(r"\[(.*); (\d+)\]", e.get("ty") or "")
             if m_ and int(m_.group(2)) <= 16:
                 return Tup([Sym(("default", m_.group(1)), m_.group(1)) for _ in range(int(m_.group(2)))])
+            dv = self._default_of(e.get("ty") or "")
+            if dv is not None:
+                return dv
             return Sym(("default", e.get("ty")), e.get("ty"))
+        if name == "len_utf8" and len(args) == 1 and isinstance(a0, int) and not isinstance(a0, bool):
+            return 1 if a0 < 0x80 else 2 if a0 < 0x800 else 3 if a0 < 0x10000 else 4
+        if name == "len_utf16" and len(args) == 1 and isinstance(a0, int) and not isinstance(a0, bool):
+            return 1 if a0 < 0x10000 else 2
+        if name in ("is_ascii",) and len(args) == 1 and isinstance(a0, int) and not isinstance(a0, bool):
+            return a0 < 0x80
         if name == "max_value" and not args:
             bits = INT_BITS.get((e.get("ty") or ""))
             if bits:
@@ -1230,6 +1274,27 @@ class PE:
         if name == "next" and len(args) == 1:
             return some(items[0]) if items else NONE
         return NotImplemented
+
+    def _default_of(self, ty, depth=0):
+        """Default::default() of std types and of crate structs whose Default is derived (field by field)."""
+        if ty.startswith("core::option::Option<"):
+            return NONE
+        if ty.startswith("alloc::vec::Vec<"):
+            return Tup([])
+        if ty == "bool":
+            return False
+        if ty in INT_BITS:
+            return 0
+        a = self.F.adts.get(ty)
+        if a and a["kind"] == "struct" and depth < 4:
+            imp = [i for i in self.F.impls if (i.get("trait") or "").endswith("default::Default") and i.get("self_adt") == ty]
+            if imp and imp[0].get("derived"):
+                fields = {}
+                for f in a["variants"][0]["fields"]:
+                    dv = self._default_of(f["ty"], depth + 1)
+                    fields[f["name"]] = dv if dv is not None else Sym(("default", f["ty"]), f["ty"])
+                return Adt(ty, ty.rsplit("::", 1)[1], fields)
+        return None
 
     def _from_dispatch(self, aty, target, a0):
         cands = []
